@@ -96,10 +96,11 @@ ReportClauses ==
       IF ust[u] = "done" THEN Tr.fin.uses[u] = <<ubs[u], ube[u]>> ELSE Len(Tr.fin.uses[u]) = 0>>
         : u \in { v \in U : Logged(v) } }
   \cup
-  { <<"R_cumulative_assignment:" \o P.cumuls[P.reqs[r].ref].name \o "/" \o P.tasks[P.reqs[r].task].name,
-      { <<ubs[u], ube[u]>> : u \in { v \in UsesOfReq(P, r) : ust[v] = "done" } }
-        = { <<Tr.fin.creqs[r][i][1], Tr.fin.creqs[r][i][2]>> : i \in 1..Len(Tr.fin.creqs[r]) }>>
-        : r \in { q \in Reqs(P) : P.reqs[q].type = "cumul" } }
+  { <<"R_cumulative_assignment:" \o P.cumuls[Tr.fin.cgroups[k].cumul].name \o "/" \o P.tasks[P.reqs[Tr.fin.cgroups[k].req].task].name,
+      LET cg == Tr.fin.cgroups[k]
+          us == { u \in UsesOfReq(P, cg.req) : P.workers[P.uses[u].worker].cumul = cg.cumul /\ ust[u] = "done" }
+      IN  { <<ubs[u], ube[u]>> : u \in us } = { <<cg.ivs[i][1], cg.ivs[i][2]>> : i \in 1..Len(cg.ivs) }>>
+        : k \in 1..Len(Tr.fin.cgroups) }
   \cup
   { <<"R_horizon", \A t \in T : st[t] = "done" => te[t] <= Tr.fin.horizon>> }
 
